@@ -199,6 +199,40 @@ func checkLeftovers(dir string, urls []string, where string) {
 	}
 }
 
+// hammer: a long free-running history without hook sleeps and with small bundles of DIFFERENT sizes, to reach windows
+// inside the reader (e.g. between a stat and an open); only the online monitors and freshness apply (too long for porcupine).
+func hammer() {
+	n := r.N(1, 12)
+	for h := 0; h < n; h++ {
+		rng := r.Rand(fmt.Sprintf("hammer-%d", h))
+		dir := filepath.Join(scratch, fmt.Sprintf("hammer-%d", h))
+		urls := []string{fmt.Sprintf("http://crl.example/hammer/%d.crl", h)}
+		writers, setsEach := 4, r.N(500, 4000)
+		ids := make([]int64, writers*setsEach)
+		pads := make([]int, len(ids))
+		for i := range pads {
+			pads[i] = []int{300, 2500, 9000, 30000}[rng.Intn(4)]
+		}
+		lib.Parallel(len(ids), 16, func(i int) { ids[i] = mint(pads[i], false) }, nil)
+		sp := hist.RunSpec{Dir: dir, Proc: 0, URLs: urls, BundleDir: bundleDir, Readers: 8, ReadsEach: r.N(2500, 20000), Seed: rng.U64(), SharedCache: h%2 == 0}
+		for w := 0; w < writers; w++ {
+			sp.WriterIDs = append(sp.WriterIDs, ids[w*setsEach:(w+1)*setsEach])
+		}
+		events, err := hist.Run(sp)
+		if err != nil {
+			panic(err)
+		}
+		hist.MaxPorcupineOps = 5000
+		findings, st := hist.Check(events, 60*time.Second)
+		hist.MaxPorcupineOps = 0
+		report(findings, "hammer", map[string]any{"history": h})
+		addStats("hammer", st)
+		r.Eval(fmt.Sprintf("hammer-history-%d", h))
+		r.Event("histories-hammer")
+		os.RemoveAll(dir)
+	}
+}
+
 // ---------------------------------------------------------------- monitor 2
 
 func stressCrossProcess() {
@@ -750,6 +784,76 @@ func crashByStrace() {
 	r.Extra["strace_kill_points_per_syscall"] = used
 }
 
+// faultsByStrace injects an ERROR (not a kill) into the n-th call of each file-system syscall of the writer: a failing
+// step must never leave a truncated / undecodable entry behind, whatever Set reports.
+func faultsByStrace() {
+	if _, err := exec.LookPath("strace"); err != nil {
+		return
+	}
+	syscalls := []string{"write", "close", "renameat", "rename", "renameat2", "openat", "fchmod", "fsync", "unlinkat"}
+	errnos := []string{"ENOSPC"}
+	maxN := 6
+	if r.Thorough() {
+		errnos, maxN = []string{"ENOSPC", "EIO", "EDQUOT", "EINTR"}, 12
+	}
+	for _, overwrite := range []bool{true, false} {
+		for _, sc := range syscalls {
+			for _, en := range errnos {
+				for n := 1; n <= maxN; n++ {
+					tag := fmt.Sprintf("fault-%v-%s-%s-%d", overwrite, sc, en, n)
+					dir, url, other, oldID, otherID := prepCrashDir(tag, overwrite, 4000)
+					newID := mint(2500+n*11, n%2 == 0)
+					cmd := exec.Command("strace", "-f", "-qq", "-o", "/dev/null", "-e", "trace="+sc, "-e", fmt.Sprintf("inject=%s:error=%s:when=%d", sc, en, n),
+						workerBin, "cache-set", dir, url, bundleDir, fmt.Sprint(newID))
+					cmd.Env = append(os.Environ(), "GOMAXPROCS=1")
+					out, err := cmd.CombinedOutput()
+					setFailed := err != nil
+					if setFailed && !strings.Contains(string(out), "set failed") {
+						// the fault hit the worker outside Set (loading the bundle, runtime start-up): says nothing
+						r.Event("faults-outside-set")
+						os.RemoveAll(dir)
+						continue
+					}
+					r.Eval("fault|" + tag)
+					r.Event("fault-points-by-strace")
+					if setFailed {
+						r.Event("fault-points-set-reported-error")
+					}
+					afterKill(dir, url, oldID, newID, true, other, otherID, "fault-by-strace", map[string]any{"fault": fmt.Sprintf("%s #%d -> %s", sc, n, en), "overwrite": overwrite, "set_reported_error": setFailed})
+					os.RemoveAll(dir)
+				}
+			}
+		}
+	}
+}
+
+// faultsByFileSizeLimit makes write(2) fail with EFBIG after a PARTIAL write (RLIMIT_FSIZE in the writer process).
+func faultsByFileSizeLimit() {
+	for _, overwrite := range []bool{true, false} {
+		for _, lim := range []int{1, 100, 4096, 65536} {
+			for _, pad := range []int{3000, 120000} {
+				tag := fmt.Sprintf("fsize-%v-%d-%d", overwrite, lim, pad)
+				dir, url, other, oldID, otherID := prepCrashDir(tag, overwrite, 1500)
+				newID := mint(pad, false)
+				cmd := exec.Command(workerBin, "cache-set", dir, url, bundleDir, fmt.Sprint(newID))
+				cmd.Env = append(os.Environ(), fmt.Sprintf("VERIF_FSIZE_LIMIT=%d", lim))
+				out, err := cmd.CombinedOutput()
+				if err != nil && !strings.Contains(string(out), "set failed") {
+					r.Inconclusive(fmt.Sprintf("file-size-limit run %s: worker failed on its own: %s", tag, out))
+					continue
+				}
+				r.Eval("fault|" + tag)
+				r.Event("fault-points-by-file-size-limit")
+				if err != nil {
+					r.Event("fault-points-set-reported-error")
+				}
+				afterKill(dir, url, oldID, newID, err == nil, other, otherID, "fault-by-file-size-limit", map[string]any{"limit_bytes": lim, "bundle_bytes": pad, "set_reported_error": err != nil})
+				os.RemoveAll(dir)
+			}
+		}
+	}
+}
+
 func crashByTimer() {
 	pad := r.N(4, 18) * 1024 * 1024
 	bigNew := mint(pad, false)
@@ -852,7 +956,7 @@ func main() {
 		"stored bundles never expire during the run (next-update +20 years), so a read after a completed write must not miss",
 		"the statement's 'at every instant ... yields' gives each URL one current value per instant, i.e. an atomic register (porcupine model); freshness is also checked separately as stated"}
 	scratch = lib.TempDir("c14")
-	defer os.RemoveAll(scratch)
+	r.OnExit(func() { os.RemoveAll(scratch) })
 	bundleDir = filepath.Join(scratch, "bundles")
 	os.MkdirAll(bundleDir, 0o755)
 	workerBin = filepath.Join(os.Getenv("VERIF_BIN"), "worker")
@@ -889,7 +993,10 @@ func main() {
 		timed("step-boundaries-cross-process", stepBoundariesCrossProcess)
 		timed("crash-by-hook", crashByHook)
 	}
+	timed("hammer", hammer)
 	timed("crash-by-strace", crashByStrace)
+	timed("faults-by-strace", faultsByStrace)
+	timed("faults-by-file-size-limit", faultsByFileSizeLimit)
 	timed("crash-by-timer", crashByTimer)
 	raceReports()
 	r.Extra["phase_seconds"] = phases
@@ -899,6 +1006,10 @@ func main() {
 	r.RequireAtLeast("freshness-obligations", 1000)
 	r.RequireAtLeast("crash-points-by-strace", 10)
 	r.RequireAtLeast("crash-points-by-timer", 10)
+	r.RequireAtLeast("fault-points-by-strace", 10)
+	r.RequireAtLeast("fault-points-by-file-size-limit", 8)
+	r.RequireAtLeast("fault-points-set-reported-error", 8)
+	r.RequireAtLeast("hammer-hits", 5000)
 	if hooked {
 		r.RequireAtLeast("interleavings-executed", 140)
 		r.RequireAtLeast("crash-points-by-hook", 8)
